@@ -65,6 +65,8 @@ type Plan struct {
 	// OrphanOK: operations may build on orphan-linked layers (fork children of a
 	// flattened layer); otherwise they are only read.
 	OrphanOK bool `json:"orphan_ok,omitempty"`
+	// TinyTrie: one-account states are allowed although trienode histories are indexed (C18).
+	TinyTrie bool `json:"tiny_trie,omitempty"`
 	// crash enumeration (C20)
 	CutSeed  uint64 `json:"cut_seed,omitempty"`
 	MaxCuts  int    `json:"max_cuts,omitempty"`
